@@ -25,10 +25,24 @@ MINTER_MC = mc("minter-mc", MINTER, "MC_Minter.tla", "mc/MC_Minter_quick.cfg", "
 MINTER_SCHED = mbt("minter-sched", MINTER, "MBT_Minter.tla", "minter", "mc/MBT_Minter_sched_quick.cfg", "mc/MBT_Minter_sched_thorough.cfg")
 MINTER_UPD = mbt("minter-upd", MINTER, "MBT_Minter.tla", "minter", "mc/MBT_Minter_upd_quick.cfg", "mc/MBT_Minter_upd_thorough.cfg")
 
+DIST = ["DecArith.tla", "Distributor.tla", "mc/MC_Distributor.tla", "mc/MBT_Distributor.tla"]
+DIST_MC = mc("dist-mc", DIST, "MC_Distributor.tla", "mc/MC_Distributor_quick.cfg", "mc/MC_Distributor_thorough.cfg")
+DIST_MC_FAULTS = mc("dist-mc-faults", DIST, "MC_Distributor.tla", "mc/MC_Distributor_faults_quick.cfg")
+DIST_CUR = mbt("dist-curated", DIST, "MBT_Distributor.tla", "distributor", "mc/MBT_Distributor_quick.cfg", "mc/MBT_Distributor_quick.cfg")
+DIST_MULTI = mbt("dist-multidenom", DIST, "MBT_Distributor.tla", "distributor", "mc/MBT_Distributor_multi_quick.cfg", "mc/MBT_Distributor_multi_quick.cfg")
+DIST_UPD = mbt("dist-upd", DIST, "MBT_Distributor.tla", "distributor", "mc/MBT_Distributor_upd_quick.cfg", "mc/MBT_Distributor_upd_quick.cfg")
+DIST_SINGLE = {"name": "dist-single", "kind": "mbt", "files": DIST, "module": "MBT_Distributor.tla", "harness": "distributor",
+               "thorough": dict(cfg="mc/MBT_Distributor_single_thorough.cfg", walks=2000, depth=10, timeout=3000, hworkers=16, heap="10g", workers=16)}
+
 TRUST = ["TLC 1.8.0 and the TLA+ CommunityModules Json module", "the Go harness projection functions (harness/*)",
          "cosmos-sdk bank/auth keepers as the ground truth for balances and accounts"]
 
+DIST_ASSUME = TRUST + ["fault injection wraps the bank keeper passed to cfedistributor's keeper (same store); faults are per target account, one call per target and block"]
+
 PROPS = {
+    "C03": {"level": "model_checking", "stages": [DIST_MC, DIST_CUR, DIST_MULTI, DIST_SINGLE], "assumptions": DIST_ASSUME},
+    "C04": {"level": "model_checking", "stages": [DIST_MC, DIST_CUR, DIST_MULTI, DIST_SINGLE], "assumptions": DIST_ASSUME},
+    "C14": {"level": "model_checking", "stages": [DIST_MC_FAULTS, DIST_CUR], "assumptions": DIST_ASSUME},
     "C02": {
         "level": "model_checking",
         "stages": [MINTER_MC, MINTER_SCHED],
